@@ -61,6 +61,30 @@ CHECKS = {
    text="Every load runs in a worker process watched for death (fatal errors, stack exhaustion), a CPU budget per case (the bounded restatement of 'never loops forever') and resident memory, with return-value monitors for recovered panics (keyed by crash site), project XOR error, planted cycles accepted and planted missing files not named. Workloads: every attribute path derived from the tested tree's JSON schema (and every node of the full example) replaced by each of 18 YAML node kinds, loaded alone / as override / as base / through extends in and across files / through include, under every single Skip*/Resolve option (thorough: all pairs and a 2% sample of all 512 combinations); seeded byte/token mutations of the repository's testdata corpus; alias, merge-key, extends, include and depends_on cycles (every digraph with a cycle on <=4 services); every subset of the files a generated project references removed, each file replaced by a directory or a dangling symlink, and (thorough) made unreadable by strace fault injection; size/depth stress.",
    note="Which error is reported is not asserted beyond 'names a missing file' and 'rejects a planted cycle'. CPU budget 30 s (quick) / 60 s (thorough) per load; an ordinary load takes about 10 ms, the slowest stress case about 3 CPU-s on this tree.",
    technique="runtime monitoring: process monitors (exit status, CPU time, RSS) + return-value invariants over schema-driven node-kind mutation, byte mutation, cycle and file-fault enumeration (strace injection)", design="4/C01"),
+ "C04": dict(category="exploration",
+   text="Seeded target models are split per attribute into 2-4 parts by the inverse of the stated override rules (decomposition engine with its own catalogue of 187 attribute paths transcribed from the statement: replace, map-recursive, append, append-unique, KEY=VALUE by key, keyed lists, wholesale, !reset, !override) and carried as separate files, `---` documents of one file, or a mix; the typed project loaded from the parts must equal the one loaded from the single target document. Two thirds of the cases focus one catalogue attribute round-robin (every attribute is the focus of several cases), one third split about ten attributes at once. Quick 10k, thorough 120k decompositions.",
+   note="The oracle is the single-document load (merged onto an empty tree, hence immune to merge rules); the loosely worded classes (ports identity, extra_hosts, logging driver, ulimits) stay in the intersection of the readings; list order after de-duplication is not asserted.",
+   technique="runtime monitoring: metamorphic comparison of typed projects over a decomposition engine (target model as oracle)", design="4/C04"),
+ "C05": dict(category="exploration",
+   text="The same decomposition engine lays the parts of a target service out as an extends chain of 1-4 bases (same file, other file, sub-directory, sibling directory, mixed; both extends syntaxes; shared bases; names reused across files; !reset/!override in extending members); the whole project is loaded 3-5 times with shuffled declaration order and must equal the flat document each time, inherited relative paths must be anchored at the base file's directory, no `extends` may remain, and cycles of length 1-5, missing base services and missing base files must fail.",
+   note="Sampled; two recorded known findings (defaults injected into depends_on of a base in another file; a short-syntax port of a middle base beating the extender's long entry) are matched by their attribute path / input shape so that other differences still alarm.",
+   technique="runtime monitoring: metamorphic comparison (extends chain vs flattened service) with repeated loads + negative cycle/missing-base cases", design="4/C05"),
+ "C06": dict(category="exploration",
+   text="A generated model is partitioned over a main file and 1-3 included files (nesting to depth 3, sub/parent/sibling directories, short and long include syntax, explicit or default project_directory, environment from .env, declared env_file or none) and must load to the same project as the pasted single document whose variables the generator substituted according to the stated layering (parent wins, outer wins, included .env must not leak) and whose paths it anchored at the included project directory; files reached through two routes must load; one-attribute redefinitions of each of the five resource kinds and include cycles of length 1-4 must fail.",
+   note="Sampled; one recorded known finding (two include routes, one through a directory outside the project) is matched by its input shape. An identical definition in the main file and an included file, and a .env next to a declared env_file, are not asserted.",
+   technique="runtime monitoring: metamorphic comparison (distributed include tree vs pasted document) + negative conflict/cycle cases", design="4/C06"),
+ "C02": dict(category="exploration",
+   text="Generated models biased towards everything that passes through a Go map on its way to a sequence are loaded repeatedly in one process (every repetition re-randomises all map iteration orders), interleaved with other inputs (history independence), with the declaration order of services/resources/attribute keys permuted, and once in fresh processes; outcomes (success/failure class), projects (raw reflect comparison, no normalisation) and the bytes of MarshalYAML/MarshalJSON must be identical.",
+   note="Only the success/failure class of failing loads is compared (which error is reported first legitimately depends on map order); a two-way order dependence showing on half of the draws is missed with probability 2^-12 (quick) per input.",
+   technique="runtime monitoring: repeated-execution determinism monitor (raw deep comparison and rendering bytes) over permutations, histories and fresh processes", design="4/C02"),
+ "C09": dict(category="exploration",
+   text="Models steered until every field of every model type has been seen non-zero in a loaded project (coverage of struct fields measured by reflection and reported) are rendered to YAML and JSON; each rendering must succeed, reload (same working directory, environment and name) to a project equal in name, services, networks, volumes, secrets, configs and extensions (JSON: modulo nested extensions), and re-render to identical bytes; a failing model is pruned to the minimal culprit attribute so that findings are keyed by attribute path.",
+   note="Values containing `$` are never generated (the statement says nothing about escaping on reload); with ResolvePaths=false loads run from the case's working directory.",
+   technique="runtime monitoring: round-trip metamorphic monitor with reflection-measured field coverage", design="4/C09"),
+ "C11": dict(category="exploration",
+   text="For each of 17 default rules of the statement (default network membership and declaration, resource names, implied depends_on from links / service: namespaces / volumes_from, build context/dockerfile, port protocol/mode, secret target, required flags, device count, pull_policy alias) and 5 origins (main file, override, same-file base, base in another file, included file), the model leaving the default implicit must load to the same project as the model spelling it out, and an explicit other value must be found unchanged; the `default` network must be declared iff used.",
+   note="One recorded known finding (implicit build context of a base in another directory; the existing suite pins it). A dependency implied by two sources with different restart flags is not exercised.",
+   technique="runtime monitoring: metamorphic comparison (implicit vs explicit spelling) across origins", design="4/C11"),
 }
 PLANNED = {}
 
